@@ -19,11 +19,14 @@ Variable locate : content -> request -> N.
 Variable serve_core : content -> key -> bytes -> N -> body.
 Variable weightedf refusedf : content -> key -> bool.
 Variable finish : body -> request -> N -> response.
+Variable badvers : request -> bool.
+Variable badvers_reply : request -> response.
 
 (* equality of bodies / responses up to the letter case of owner names *)
 Variable beq : body -> body -> Prop.
 Variable req : response -> response -> Prop.
 Hypothesis beq_refl : forall b, beq b b.
+Hypothesis req_refl : forall a, req a a.
 Hypothesis finish_proper : forall b1 b2 r l, beq b1 b2 -> req (finish b1 r l) (finish b2 r l).
 (* the answer depends on the name as asked only through its lower-cased form, up to owner case *)
 Hypothesis case_insensitive :
@@ -37,8 +40,8 @@ Variable P : key -> Prop.
 Hypothesis key_injective : forall k1 k2, P k1 -> P k2 -> key_string k1 = key_string k2 -> k1 = k2.
 
 Notation cache := (cache body).
-Notation serve := (serve content body response lower locate serve_core weightedf refusedf finish).
-Notation serve_plain := (serve_plain content body response lower locate serve_core finish).
+Notation serve := (serve content body response lower locate serve_core weightedf refusedf finish badvers badvers_reply).
+Notation serve_plain := (serve_plain content body response lower locate serve_core finish badvers badvers_reply).
 Notation key_of := (key_of content lower locate).
 
 (* every entry is what serve_core computes on the CURRENT generation for its key, for
@@ -84,6 +87,7 @@ Lemma serve_ok cfg g c now rnd rnd' r :
   Inv g c' /\ both_ok (weightedf g (key_of g r)) resp (serve_plain g rnd' r).
 Proof.
   intros HI HP. unfold Cache.serve, Cache.serve_plain. cbv zeta.
+  destruct (badvers r); [split; auto; intros _; apply req_refl|].
   set (k := key_of g r) in *.
   set (b := serve_core g k (q_asked r) rnd).
   assert (EO : forall x, entry_ok g (key_string k) (mkE x b)).
@@ -157,7 +161,7 @@ Qed.
 Lemma both_cached cfg rnd' h : forall g c,
   map (fun x => snd (fst x)) (both cfg rnd' g c h) =
   flat_map (fun o => match o with Some (r, _) => [r] | None => [] end)
-           (crun content body response lower locate serve_core weightedf refusedf finish cfg (g, c) h).
+           (crun content body response lower locate serve_core weightedf refusedf finish badvers badvers_reply cfg (g, c) h).
 Proof.
   induction h as [|ev h IH]; intros g c; simpl; auto.
   destruct ev as [now rnd r|g'|]; simpl.
@@ -275,19 +279,20 @@ Theorem cache_invisible
   (content body response : Type) (lower : bytes -> bytes) (locate : content -> request -> N)
   (serve_core : content -> key -> bytes -> N -> body) (weightedf refusedf : content -> key -> bool)
   (finish : body -> request -> N -> response)
+  (badvers : request -> bool) (badvers_reply : request -> response)
   (beq : body -> body -> Prop) (req : response -> response -> Prop) :
-  (forall b, beq b b) ->
+  (forall b, beq b b) -> (forall a, req a a) ->
   (forall b1 b2 r l, beq b1 b2 -> req (finish b1 r l) (finish b2 r l)) ->
   (forall g k a1 a2 rnd, lower a1 = lower a2 -> beq (serve_core g k a1 rnd) (serve_core g k a2 rnd)) ->
   (forall g k a r1 r2, weightedf g k = false -> serve_core g k a r1 = serve_core g k a r2) ->
   forall cfg rnd' h g,
   hist_ok content lower locate wf_key g h ->
   Forall (fun x => let '(w, a, b) := x in w = false -> req a b)
-         (both content body response lower locate serve_core weightedf refusedf finish cfg rnd' g [] h).
+         (both content body response lower locate serve_core weightedf refusedf finish badvers badvers_reply cfg rnd' g [] h).
 Proof.
-  intros H1 H2 H3 H4 cfg rnd' h g HH.
+  intros H1 H0 H2 H3 H4 cfg rnd' h g HH.
   eapply (cached_equals_uncached content body response lower locate serve_core weightedf refusedf finish
-            beq req H1 H2 H3 H4 wf_key key_string_injective cfg rnd' h g []); auto.
+            badvers badvers_reply beq req H1 H0 H2 H3 H4 wf_key key_string_injective cfg rnd' h g []); auto.
   apply Inv_nil.
 Qed.
 
@@ -304,6 +309,7 @@ Definition ex_hist : list (event N) :=
    EQuery N 101 2 (mkReq 1 [119; 119; 119] 1 1 12);    (* "www": hit, carries the first asker's case *)
    EQuery N 102 3 (mkReq 2 [119; 119; 119] 1 1 13);    (* other location: miss *)
    EQuery N 103 4 (mkReq 1 [119] 7 1 14);              (* weighted: never cached *)
+   EQuery N 103 9 (mkReq 1 [87; 119; 87] 1 1 99);      (* unsupported EDNS version (extra = 99): BADVERS although the key is cached *)
    EReload N 5;
    EQuery N 104 5 (mkReq 1 [119; 119; 119] 1 1 15);    (* after the reload: computed on generation 5 *)
    EQuery N 2000 6 (mkReq 1 [119; 119; 119] 1 1 16)].  (* 1896 s later: expired *)
@@ -311,8 +317,8 @@ Definition ex_hist : list (event N) :=
 Example cache_example :
   map (fun o => match o with Some (r, oc) => Some (fst (fst r), oc) | None => None end)
       (crun N bytes (bytes * N * N) ex_lower (fun _ r => q_from r) ex_core ex_weighted (fun _ _ => false) ex_finish
-            (mkCC true 2 0) (4, []) ex_hist) =
+            (fun r => q_extra r =? 99) (fun r => ([66], q_extra r, 0)) (mkCC true 2 0) (4, []) ex_hist) =
   [Some ([87; 119; 87; 4], OMiss); Some ([87; 119; 87; 4], OHit); Some ([119; 119; 119; 4], OMiss);
-   Some ([119; 4; 4], OMiss); None; Some ([119; 119; 119; 5], OMiss); Some ([119; 119; 119; 5], OExpired)] /\
+   Some ([119; 4; 4], OMiss); Some ([66], OOff); None; Some ([119; 119; 119; 5], OMiss); Some ([119; 119; 119; 5], OExpired)] /\
   hist_ok N ex_lower (fun _ r => q_from r) wf_key 4 ex_hist.
 Proof. split; [vm_compute; reflexivity|]. cbn. unfold wf_key; cbn. repeat split; reflexivity. Qed.
